@@ -3,6 +3,7 @@ package main
 import (
 	"fmt"
 	"go/ast"
+	"go/token"
 	"go/types"
 	"strings"
 
@@ -64,6 +65,9 @@ func (e *Exec) funcEnv(fr *Frame, st *State) *Env {
 				}
 			}
 		}
+	}
+	for n, v := range e.siteVars {
+		env.vars[n] = v
 	}
 	// source-level locals recorded by DebugRef (unique definitions only)
 	for name, v := range e.debugVars(fr) {
@@ -198,7 +202,8 @@ func (e *Exec) checkPosts(fr *Frame, st *State, ret *ssa.Return, vals []Val) {
 func (e *Exec) obligeNoAssume(st *State, name, kind string, props []string, goal, desc string, pos interface{ IsValid() bool }) *Obligation {
 	full := e.name + "#" + name
 	o := &Obligation{Name: full, Props: props, Kind: kind, Func: e.name, Desc: desc,
-		N: e.S.Len(), Hyp: []string{st.reach}, Goal: goal, Script: e.S, Inputs: append([]string{}, e.inputs...), Ex: e}
+		N: e.S.Len(), Hyp: []string{st.reach}, Goal: goal, Script: e.S, Inputs: append([]string{}, e.inputs...), Ex: e,
+		Splits: append([]string{}, e.conds...)}
 	e.obls = append(e.obls, o)
 	return o
 }
@@ -337,6 +342,55 @@ func (e *Exec) callArgs(fr *Frame, st *State, c *ssa.CallCommon) []Val {
 }
 
 func (e *Exec) execCall(fr *Frame, st *State, in ssa.CallInstruction, c *ssa.CallCommon) Val {
+	v := e.execCall1(fr, st, in, c)
+	if fr.top && e.fc != nil {
+		if cs, ok := e.callOrd[in.(ssa.Instruction)]; ok {
+			for _, sec := range e.fc.Calls {
+				if sec.Callee != cs.name || sec.N != cs.k || (len(sec.Witness) == 0 && len(sec.Asserts) == 0 && len(sec.After) == 0) {
+					continue
+				}
+				if val, ok := in.(ssa.Value); ok && val.Type() != nil {
+					fr.vals[val] = v
+				}
+				cenv := e.funcEnv(fr, st)
+				for _, lm := range sec.After {
+					e.instLemma(cenv, lm, st)
+				}
+				for _, w := range sec.Witness {
+					wv := e.evalExpr(cenv, w.Expr)
+					e.siteVars[w.Name] = e.nameVal("w_"+w.Name, wv, wv.T)
+					cenv.vars[w.Name] = e.siteVars[w.Name]
+				}
+				for i, a := range sec.Asserts {
+					lbl := a.Label
+					if lbl == "" {
+						lbl = fmt.Sprintf("%d", i+1)
+					}
+					e.lastSpecKey = ""
+					g := e.evalBool(cenv, a.Expr)
+					e.oblige(st, fmt.Sprintf("call:%s#%d:assert:%s", cs.name, cs.k, lbl), "assert", a.Tags, g, a.Text, in.Pos())
+					// `spec(args) == witness`: from here on the application is read as the
+					// witness (keeps later queries free of the definitions behind it)
+					if be, ok := a.Expr.(*ast.BinaryExpr); ok && be.Op == token.EQL {
+						if ce, ok := be.X.(*ast.CallExpr); ok {
+							if id, ok := be.Y.(*ast.Ident); ok {
+								if wv, isW := e.siteVars[id.Name]; isW && e.lastSpecKey != "" && identName(ce.Fun) == e.lastSpecName {
+									ents := e.specCache2[e.lastSpecKey]
+									if len(ents) > 0 {
+										ents[len(ents)-1].val = wv
+									}
+								}
+							}
+						}
+					}
+				}
+			}
+		}
+	}
+	return v
+}
+
+func (e *Exec) execCall1(fr *Frame, st *State, in ssa.CallInstruction, c *ssa.CallCommon) Val {
 	resT := c.Signature().Results()
 	var rt types.Type = resT
 	if resT.Len() == 1 {
@@ -582,6 +636,25 @@ func (e *Exec) havocClause(env *Env, st *State, fc *FuncContract, m string) {
 		if id, ok := ex.(*ast.Ident); !ok || hasVar(env, id.Name) {
 			base := e.evalExpr(env, ex)
 			if base.T != nil {
+				if _, isIface := base.T.Underlying().(*types.Interface); isIface && fname == "*" {
+					// all fields of the implementation, at this object only; which
+					// implementation is decided by the dynamic type tag
+					it := base.T.Underlying().(*types.Interface)
+					bumped := false
+					for _, impl := range e.P.implementers(it) {
+						cond := sEq(sx("typeof", base.t()), sInt(int64(e.P.tagOf(impl))))
+						for _, an := range fieldArrays(impl, "*") {
+							srt := e.arrSortOf(an)
+							cur := e.arrTerm(st, an, srt)
+							if e.P.wireRelevant(an) && !e.benign(base.t()) && !bumped {
+								e.bumpHV(st)
+								bumped = true
+							}
+							st.heap[an] = e.S.Define(an, "(Array Int "+srt+")", sIte(cond, sx("store", cur, base.t(), e.S.Fresh("mod_"+an, srt)), cur))
+						}
+					}
+					return
+				}
 				if stt, T := structOf(base.T); stt != nil {
 					for i := 0; i < stt.NumFields(); i++ {
 						f := stt.Field(i)
